@@ -78,7 +78,20 @@ BatteryFamily ==
         \A D \in Small(BlackBattery, 3) :
           Emit(A \cup D \cup {<<27, Bl(vk)>>, <<7, W(King)>>, <<48, Bl(King)>>})
 
-Run == IF MODE = "rank" THEN RankFamily
+\* MODE "stack": very long exchanges - up to ten white and ten black men (promoted pieces included) bear on one pawn:
+\* file batteries from both sides, four knights each, bishops, a queen beside the target.  The men are added in a fixed
+\* order; every pair of prefix lengths from four on gives one position (exchanges of up to twenty captures).
+WhiteStack == << <<27, W(Rook)>>, <<19, W(Rook)>>, <<11, W(Queen)>>, <<3, W(Queen)>>, <<18, W(Knight)>>, <<20, W(Knight)>>,
+                 <<25, W(Knight)>>, <<29, W(Knight)>>, <<28, W(Bishop)>>, <<17, W(Bishop)>> >>
+BlackStack == << <<43, Bl(Rook)>>, <<51, Bl(Rook)>>, <<59, Bl(Queen)>>, <<41, Bl(Knight)>>, <<45, Bl(Knight)>>, <<52, Bl(Knight)>>,
+                 <<50, Bl(Knight)>>, <<42, Bl(Bishop)>>, <<44, Bl(Bishop)>>, <<36, Bl(Queen)>> >>
+StackFamily ==
+    \A i \in 4..10 : \A j \in 4..10 :
+        (i + j) % NSHARDS = SHARD =>
+            Emit({WhiteStack[k] : k \in 1..i} \cup {BlackStack[k] : k \in 1..j} \cup {<<35, Bl(Pawn)>>, <<7, W(King)>>, <<63, Bl(King)>>})
+
+Run == IF MODE = "stack" THEN StackFamily
+       ELSE IF MODE = "rank" THEN RankFamily
        ELSE IF MODE = "battery" THEN BatteryFamily
        ELSE Config(27, WhiteD4, BlackD4, FALSE) /\ Config(59, WhiteD8, BlackD8, FALSE)
 ASSUME Run
